@@ -1131,7 +1131,10 @@ func (g *Gen) builtin(x *ssa.Call, b *ssa.Builtin) {
 	case "append":
 		g.builtinAppend(x)
 	case "clear":
-		oos("clear builtin")
+		if _, ok := args[0].Type().Underlying().(*types.Slice); !ok {
+			oos("clear builtin on a map")
+		}
+		g.builtinClear(x)
 	case "print", "println", "delete":
 	default:
 		if strings.HasPrefix(b.Name(), "ssa:") {
@@ -1149,6 +1152,27 @@ func (g *Gen) qvar() Term {
 
 func (g *Gen) forall(q Term, body Term) Term {
 	return Term{fmt.Sprintf("(forall ((%s %s)) %s)", q.S, q.Sort, body.S), SBool}
+}
+
+// clear(s) for a slice: the elements s[0:len(s)] become zero values; everything else of the backing array
+// (in particular the part between len and cap) is unchanged
+func (g *Gen) builtinClear(x *ssa.Call) {
+	st := g.st
+	dst := g.val(x.Call.Args[0])
+	et := x.Call.Args[0].Type().Underlying().(*types.Slice).Elem()
+	zv := g.zeroVal(et)
+	for i, c := range g.layout(et) {
+		fam := elemFam(et) + c.Path
+		as := arrSort(g.intRep(), c.Sort)
+		f := g.famTerm(st, fam, arrSort(SInt, as))
+		oldDst := sel(f, dst.C[0])
+		na := g.fresh("cleararr", as)
+		q := g.qvar()
+		inWin := and(g.le(dst.C[1], q), g.lt(q, g.addI(dst.C[1], dst.C[2])))
+		body := eq(sel(na, q), ite(inWin, zv.C[i], sel(oldDst, q)))
+		g.assume(g.forall(q, body))
+		st.heap[fam] = g.define("h", sto(f, dst.C[0], na))
+	}
 }
 
 func (g *Gen) builtinCopy(x *ssa.Call) {
